@@ -125,9 +125,7 @@ impl Property for C18 {
         let mut unlinking_ops: Vec<usize> = Vec::new();
         for sop in &ops {
             let step = exec.step(sop)?;
-            if let Outcome::Panic(msg) | Outcome::IoError(msg) | Outcome::OpenFailed(msg) = &step.real.outcome {
-                return Err(exec.failure(format!("op #{} {}: {msg}", step.idx, step.cop.short()), "call-failed", json!({})));
-            }
+            exec.usable_or_skip(&step)?;
             if let Some(q) = step.cop.queue() {
                 touched.insert(q.text());
             }
